@@ -4,12 +4,13 @@ import "github.com/ProtonMail/gluon/imap"
 
 // VerifDecoded is what a client can read off an untagged response (decode helper for harnesses in other packages).
 type VerifDecoded struct {
-	Kind     int // 0 other, 1 EXISTS, 2 EXPUNGE, 3 FETCH, 4 RECENT
-	N        uint32
-	HasFlags bool
-	Flags    imap.FlagSet
-	HasUID   bool
-	UID      imap.UID
+	Kind          int  // 0 other, 1 EXISTS, 2 EXPUNGE, 3 FETCH, 4 RECENT, 5 tagged OK
+	ExpungeIssued bool // tagged OK carrying [EXPUNGEISSUED]
+	N             uint32
+	HasFlags      bool
+	Flags         imap.FlagSet
+	HasUID        bool
+	UID           imap.UID
 }
 
 func VerifDecode(r Response) VerifDecoded {
@@ -20,6 +21,17 @@ func VerifDecode(r Response) VerifDecoded {
 		return VerifDecoded{Kind: 2, N: uint32(r.seq)}
 	case *recent:
 		return VerifDecoded{Kind: 4, N: r.count}
+	case *ok:
+		d := VerifDecoded{}
+		if r.tag != "*" {
+			d.Kind = 5
+		}
+		for _, it := range r.items {
+			if _, is := it.(*itemExpungeIssued); is {
+				d.ExpungeIssued = true
+			}
+		}
+		return d
 	case *fetch:
 		d := VerifDecoded{Kind: 3, N: uint32(r.seq)}
 		for _, it := range r.items {
